@@ -1549,6 +1549,8 @@ class Interp:
             m = self.find_method(fn, '__call__')
             if m is not None:
                 return self.call_function(m, [fn] + list(args), kwargs, lineno)
+            if isinstance(fn.fields.get('__call__'), Builtin):     # native model object
+                return fn.fields['__call__'].fn(*args, **kwargs)
         if isinstance(fn, UninterpFn):
             return fn(self, *args)
         raise Unsupported(f'call of {type(fn).__name__} at line {lineno}')
